@@ -106,8 +106,10 @@ Definition add_grow (m : vmap) (v : N) (l : loc) (s : slice) : vmap :=
   {| heap := heap m ++ [cells (heap m) s ++ [l] ++ repeat zero_loc (grow (s_cap s) - S (s_len s))];
      v2l := put_vid v {| s_arr := length (heap m); s_len := S (s_len s); s_cap := grow (s_cap s) |} (v2l m);
      data_center := data_center m |}.
+Definition cut (i : nat) (cs : list loc) : list loc := firstn i cs ++ skipn (S i) cs.
+Arguments cut : simpl never.
 Definition del_at (m : vmap) (v : N) (s : slice) (i : nat) : vmap :=
-  {| heap := heap m ++ [firstn i (cells (heap m) s) ++ skipn (S i) (cells (heap m) s)];
+  {| heap := heap m ++ [cut i (cells (heap m) s)];
      v2l := put_vid v {| s_arr := length (heap m); s_len := s_len s - 1; s_cap := s_len s - 1 |} (v2l m);
      data_center := data_center m |}.
 
@@ -165,8 +167,8 @@ Proof.
 Qed.
 
 Lemma cut_length : forall i (cs : list loc), i < length cs ->
-  length (firstn i cs ++ skipn (S i) cs) = length cs - 1.
-Proof. intros i cs H. rewrite app_length, firstn_length, skipn_length. lia. Qed.
+  length (cut i cs) = length cs - 1.
+Proof. intros i cs H. unfold cut. rewrite app_length, firstn_length, skipn_length. lia. Qed.
 
 (* ---------- the frame: what an update cannot change ---------- *)
 (* a header [hd] of volume v is "held safely" when its array is either still the
@@ -320,7 +322,7 @@ Proof.
     split; cbn.
     + intros x sx Fx. destruct (N.eq_dec w x) as [E|E].
       * subst x. rewrite find_put_same in Fx. inversion Fx; subst. unfold ok_slice; cbn.
-        rewrite app_length, nth_alloc_new. cbn. lia.
+        rewrite app_length, nth_alloc_new, Lc. cbn. lia.
       * rewrite find_put_other in Fx by auto. destruct (W1 x sx Fx) as [A [B C]].
         unfold ok_slice. rewrite app_length, nth_alloc_old by auto. cbn. lia.
     + intros x y s1 s2 Fx Fy Ea.
@@ -386,7 +388,7 @@ Proof.
       pose proof (cut_length i _ Hi) as Lc.
       rewrite cells_length in Lc by (apply (W1 v s F)).
       rewrite Hr. unfold cells at 1. cbn [s_arr s_len]. rewrite nth_alloc_new.
-      apply firstn_all2. lia.
+      apply firstn_all2. unfold cut in Lc. lia.
   - reflexivity.
 Qed.
 
